@@ -12,6 +12,7 @@ mod c11;
 mod c12;
 mod c15;
 mod c16;
+mod c18;
 mod c19;
 mod c20;
 
@@ -34,6 +35,7 @@ fn main() {
         "c12" => c12::run(seed, count, &outdir, "c12").unwrap(),
         "c13" => c12::run(seed, count, &outdir, "c13").unwrap(),
         "c12-deep" => c12::deep_child(),
+        "c18" => c18::run(seed, count, &outdir).unwrap(),
         "c19" => c19::run(seed, count, &outdir).unwrap(),
         "c16" => c16::run(seed, count, &outdir).unwrap(),
         "c15" => c15::run(seed, count, &outdir).unwrap(),
